@@ -48,6 +48,22 @@ def volume(dims):
     return v
 
 
+def table_obligation_setup(chk=None):
+    """For a check whose Lean obligations import Gen/OpTable.lean (C04, C01's Props/C01/Rules.lean): regenerate the
+    table from this run's working tree and pin it until the process exits, so that the regeneration step of a
+    concurrent check of another working tree does not rewrite it between generation and the lake build."""
+    import atexit
+    from translate import operators
+    if operators.pin():
+        atexit.register(operators.unpin)
+    try:
+        return operators.generate()
+    except Exception as e:
+        if chk is not None:
+            chk.report("translator-failure", "translate/operators.py failed on the working tree: %r" % (e,), {"error": repr(e)}, found_input=False)
+        return None
+
+
 class Var:
     def __init__(self, name, dims, batch, dev, graph, n=None, lazy=False, random=False, intval=True):
         self.name, self.dims, self.batch, self.dev, self.graph = name, dims, batch, dev, graph
